@@ -253,24 +253,19 @@ theorem ev_sim (q : Quirks) (cfg : Cfg) (hwf : cfg.wf = true) (ev : Ev) (cL cR :
       have hnil := map_eq_nil' hes
       subst hnil
       simp only [replayFrom, List.foldl_nil]
-      cases ve with
-      | true =>
-        simp only [execEv, hs, and_self, if_true, not_true_eq_false, and_false, if_false]
-        exact ⟨hI.agree, hI.conn, hI.file, hI.lt⟩
-      | false =>
-        simp only [execEv, Bool.false_eq_true, false_and, if_false, hs, not_false_eq_true, and_self, if_true]
-        rw [execRaw_select q cL now obs raw hs]
-        refine ⟨hI.agree, ?_, hI.file, selTarget_lt _ _ hI.lt⟩
-        simp only [hI.conn]
+      simp only [execEv, hs, if_true]
+      rw [execRaw_select q cL now obs raw hs]
+      refine ⟨hI.agree, ?_, hI.file, selTarget_lt _ _ hI.lt⟩
+      simp only [hI.conn]
     · have hexec : execEv q cL (.cmd ve now obs raw) = { cL with store := (KS.step q cL.store cL.cur now (effCmd raw) obs).1 } := by
-        simp only [execEv, hs, and_false, if_false]
+        simp only [execEv]
         exact execRaw_not_select q cL now obs raw hs
       rw [hexec]
       simp only [covered, hs, false_or, decide_eq_true_eq, Bool.decide_and, Bool.and_eq_true, Bool.decide_eq_true,
         Bool.not_eq_true', Bool.not_eq_eq_eq_not, Bool.not_true, decide_eq_false_iff_not] at hcov
       by_cases hw : isWrite cfg.writes (nameOf raw) = true
       · -- appended before dispatch; replayed in the database it ran in
-        simp only [logEv, hw, if_true, hs, false_and, if_false] at hes ⊢
+        simp only [logEv, hw, if_true, hs, if_false] at hes ⊢
         have hnr : effName raw ≠ "SPOP" := by
           intro h
           have := hcov.2.1
@@ -285,7 +280,7 @@ theorem ev_sim (q : Quirks) (cfg : Cfg) (hwf : cfg.wf = true) (ev : Ev) (cL cR :
         exact ⟨this.1, rfl, this.2.symm, hI.lt⟩
       · -- not in the table: it must be read-only, and then it changed nothing
         have hw' : isWrite cfg.writes (nameOf raw) = false := by simpa using hw
-        simp only [logEv, hw', Bool.false_eq_true, if_false, hs, false_and] at hes ⊢
+        simp only [logEv, hw', Bool.false_eq_true, if_false, hs] at hes ⊢
         have hnil := map_eq_nil' hes
         subst hnil
         simp only [replayFrom, List.foldl_nil]
